@@ -35,7 +35,10 @@ MANIFEST = {
             'are listed as inconclusive edges). Edge-complete per program plus '
             'sampled path combinations, not all paths.'
             ' In 30 % of the programs unused value macros are defined ins'
-            'ide branch, loop and routine bodies.',
+            'ide branch, loop and routine bodies.'
+            ' Scripts with a built-in that fails or a division by zero in'
+            'side routines must either end there or carry on in source or'
+            'der with every call left again.',
     'note': 'Trusted: vmmon automata, reference interpreter for the marker '
             'trace. Routine definitions nested in if/repeat bodies are taken '
             'as compile-time definitions (defined whether or not control '
@@ -215,8 +218,59 @@ def run_case(ctx, i):
                     'instructions': '{}/{}'.format(covered[1], n_inst)})
 
 
+FAILING = ['[ asin 2 ]', '[ acos -3 ]', '[ sqrt -1 ]', '{ 1 / zero }',
+           '{ 5 % zero }', '[ asin { 1 + 1 } ]']
+
+
+def part_failing_calls(ctx):
+    """a built-in that fails, or a division by zero, in the middle of a
+    routine: what a script does after that is not laid down, but where control
+    goes is -- either the run ends there, or it carries on in source order with
+    every statement executed once and every call left again"""
+    diffrun.setup([dict(label='A', group='G', location='P')])
+    rng = ctx.rng('failing', ctx.shard)
+    for _ in range(6 if ctx.tier == 'quick' else 60):
+        bad = rng.choice(FAILING)
+        shape = rng.randrange(4)
+        if shape == 0:
+            text = ('assign zero 0 define f begin print 1 assign x {} print 2 '
+                    'end f print 3'.format(bad))
+            ok = [[1], [1, 2, 3]]
+        elif shape == 1:
+            text = ('assign zero 0 define g begin print 1 assign x {} print 2 '
+                    'return 7 end define f begin print 0 print [ g ] print 4 '
+                    'end f print 5'.format(bad))
+            ok = [[0, 1], [0, 1, 2, 7, 4, 5]]
+        elif shape == 2:
+            text = ('assign zero 0 define f with n begin print n assign x {} '
+                    'print {{ n + 10 }} end repeat with i from 1 to 2 f i '
+                    'print 9'.format(bad))
+            ok = [[1], [1, 11, 2, 12, 9]]
+        else:
+            text = ('assign zero 0 define f begin repeat 2 begin print 1 '
+                    'assign x {} print 2 end print 3 end f print 4'.format(bad))
+            ok = [[1], [1, 2, 1, 2, 3, 4]]
+        r = runner.run_script(text, budget=5000)
+        ctx.case('F:' + text)
+        got = [e[2] for e in r.log if e[0] == 'out' and e[1] == 'out']
+        replay = {'part': 'failing-calls', 'script': text}
+        if not r.accepted:
+            ctx.violation('failing-call:rejected', r.errors.strip() + ' | ' +
+                          text, replay)
+        elif got not in ok:
+            ctx.violation('failing-call:control-goes-astray',
+                          'printed {} where the source allows {} | {}'.format(
+                              got, ok, text), replay)
+        elif r.leftovers and got == ok[1]:
+            ctx.violation('failing-call:frames-left', '{} | {}'.format(
+                r.leftovers[:2], text), replay)
+        else:
+            ctx.count('failing_calls_checked')
+
+
 def run_shard(ctx):
     n = N[ctx.tier]
+    part_failing_calls(ctx)
     for i in range(ctx.shard, n, ctx.nshards):
         run_case(ctx, i)
 
